@@ -1076,6 +1076,19 @@ pub fn run(cfg: &Config) -> i32 {
 		let inserts: [&[u8]; 12] = [b"\xc3\xa9", b"\xf0\x9f\x98\x80", b"\xe2\x82\xac", b"\xff", b"\x80", b"\xc0\xaf", b"\xed\xa0\x80", b"\xf0\x9f\x98", b"\xc3", b"\xf4\x90\x80\x80", b"\xef\xbf\xbd", b"\xe2\x82"];
 		let shapes: [(&[u8], &[u8]); 6] = [(b"[\"", b"\", 12, false]"), (b"{\"k", b"\":[1,2],\"z\":\"s\"}"), (b"\"", b"\""), (b"[[\"a\",{\"b\":\"", b"x\"}],null]"), (b"{\"a\":\"", b"\",\"a\":{\"q\":7}}"), (b" [ 1 , \"", b"\" , { } ] ")];
 		let mut rep = Report::new();
+		// the same documents behind a byte-order mark, behind blanks, and behind a NUL
+		for prefix in [&b"\xef\xbb\xbf"[..], &b"\xef\xbb\xbf "[..], &b"\xfe\xff"[..], &b"\x00"[..], &b" \n"[..]] {
+			for (head, tail) in shapes {
+				let mut doc = prefix.to_vec();
+				doc.extend_from_slice(head);
+				doc.extend_from_slice(b"\xc3\xa9");
+				doc.extend_from_slice(tail);
+				for (t, inv) in [(false, false), (true, false), (false, true), (true, true)] {
+					navigate_bytes(&mut rep, "byte-inputs-under-every-option-record", &doc, Opts { truncated: t, invalid: inv });
+					rep.distinct_by_construction(1);
+				}
+			}
+		}
 		for ins in inserts {
 			for (head, tail) in shapes {
 				for twice in [false, true] {
